@@ -129,6 +129,16 @@ add('C27', 'exploration',
     'and together with other settings) must be delivered / refused with ENHANCE_YOUR_CALM; census of every peer-fed container at N and 2N.',
     'Reads streams, _closed_streams, incoming_buffer, HPACK tables and settings deques through getattr (read-only); a removed attribute makes that probe unavailable, not a verdict.')
 
+add('C11', 'exploration',
+    'runtime monitoring: FIFO settings-frame model + in-force value measurement by behaviour probes on deep-copied clones',
+    'The k-th ACK must report exactly frame k (initial frame included); every received SETTINGS frame must yield one ACK and one '
+    'RemoteSettingsChanged with exact old/new values (unknown and duplicate ids included) and be applied at once; the values '
+    'actually in force (inbound MAX_FRAME_SIZE, MAX_HEADER_LIST_SIZE, MAX_CONCURRENT_STREAMS, ENABLE_PUSH, INITIAL_WINDOW_SIZE, '
+    'HEADER_TABLE_SIZE) are measured on clones right before and after each ACK; raising update_settings must leave no trace.',
+    'A case stops at the first occurrence of the known per-key acknowledgement defect (the model has diverged); cases whose '
+    'frames all touch one key, or with one frame in flight, are judged strictly throughout. Send-window effects of remote '
+    'INITIAL_WINDOW_SIZE changes (incl. reserved streams) are judged by C03.')
+
 NOT_BUILT_REASON = 'check not built yet in this session (planned in DESIGN.md; no verdict claimed)'
 
 def main():
